@@ -9,7 +9,7 @@ import re
 from ..core import Undecided
 from ..tables import enum_paths, return_value_on_path
 
-CRATES = ["apollo_compiler"]
+CRATES = ["apollo_parser", "apollo_compiler"]
 LEVEL = "other"
 EXPLANATION = """
 C19.FIELDS: in each of the five `to_ast` lowerings (Operation, Fragment, Field, InlineFragment,
@@ -148,4 +148,7 @@ def run(prog, rep):
     rule_sel(prog, rep)
     rule_doc(prog, rep)
     rule_fieldset(prog, rep)
+    # the lowered AST is printed by the AST printer (C08 / C09 rules, shared)
+    from . import C08
+    C08.run(prog, rep)
     rep.note("printing of the lowered AST is C08/C09; typing of the re-parsed document is C18; equality of the round trip is not decided")
